@@ -69,7 +69,7 @@ func (j *jsonCtx) is(p *term.Term, what string) bool {
 	case 0:
 		return false
 	}
-	abort("UNSUPPORTED", "JSON model: cannot decide whether an input byte is %s at %s (fully symbolic JSON text is outside the model)", what, j.ex.posOf(j.c.Site))
+	abort("UNSUPPORTED", "JSON model: cannot decide whether an input byte is %s at %s (fully symbolic JSON text is outside the model) [cond %s, %d nodes]", what, j.ex.posOf(j.c.Site), p, term.Size(p))
 	return false
 }
 
